@@ -195,6 +195,21 @@ func propSignRaw(t *rapid.T) {
 	if err != nil || lib.ScInt(r2).Cmp(ri) != 0 || lib.ScInt(s2).Cmp(si) != 0 || v2 != v {
 		t.Fatal("SignRaw is not a deterministic function of (key, digest, entropy)")
 	}
+	// A, B, A on one key object: another digest in between (its signature must be valid too), then the
+	// first request again -- nothing may be carried from one signing call to the next
+	if rapid.Bool().Draw(t, "follow-up") {
+		other := append([]byte(nil), digest...)
+		other[rapid.IntRange(0, 31).Draw(t, "obyte")] ^= 0x40
+		rb, sb, vb, err := key.SignRaw(again(), other)
+		if err != nil {
+			t.Fatalf("second SignRaw on the same key failed: %v", err)
+		}
+		checkSignature(t, d, other, lib.ScInt(rb), lib.ScInt(sb), vb)
+		r3, s3, v3, err := key.SignRaw(again(), digest)
+		if err != nil || lib.ScInt(r3).Cmp(ri) != 0 || lib.ScInt(s3).Cmp(si) != 0 || v3 != v {
+			t.Fatal("SignRaw(A) changed after signing B with the same key object")
+		}
+	}
 }
 
 func TestC08_SignRaw(t *testing.T) { rapid.Check(t, propSignRaw) }
